@@ -44,16 +44,22 @@ def Inline.isLinkRefDef : Inline → Bool
   | .linkRefDef .. => true
   | _ => false
 
+/-- a list marker as `ListItem.pattern` (`\d{1,9}[.)]|[+\-*]`) matches it: one of `-`, `+`, `*`, or 1–9 decimal
+    digits (`\d`: Unicode decimal digits, `isDigit`) followed by `.` or `)` -/
+def isMarker (ld : Str) : Bool :=
+  if ld.length == 1 then ld == ['+'] || ld == ['-'] || ld == ['*']
+  else !ld.dropLast.isEmpty && ld.dropLast.all isDigit && decide (ld.dropLast.length ≤ 9) &&
+    (ld.getLast? == some '.' || ld.getLast? == some ')')
+
 /-- `List.start` against the leader of the first item (`List.__init__`: `leader = self.children[0].leader;
-    self.start = int(leader[:-1]) if len(leader) != 1 else None`): a one-character leader (bullet) ↔ no
-    start; otherwise the leader is 1–9 decimal digits and one delimiter character, and `start` is the value
-    of the digits (`parseNat` = `int`), hence below 10^9. -/
+    self.start = int(leader[:-1]) if len(leader) != 1 else None`): the leader is a list marker; a bullet ↔ no
+    start; for an ordered marker `start` is the value of its digits (`parseNat` = `int`), hence below 10^9. -/
 def leaderStartOk (leader : Str) (start : Option Nat) : Bool :=
-  if leader.length == 1 then start.isNone
-  else !leader.dropLast.isEmpty && leader.dropLast.all isDigit && decide (leader.dropLast.length ≤ 9) &&
-    (match start with
-     | some n => n == parseNat leader.dropLast && decide (n < 1000000000)
-     | none => false)
+  isMarker leader &&
+    (if leader.length == 1 then start.isNone
+     else match start with
+       | some n => n == parseNat leader.dropLast && decide (n < 1000000000)
+       | none => false)
 
 /-- `start` agrees with the first child's leader (false when there is no first `.listItem`) -/
 def listStartOk (start : Option Nat) : List Block → Bool
@@ -126,25 +132,378 @@ theorem parseNat_lt_of_len (s : Str) (h : s.length ≤ 9) : parseNat s < 1000000
   have : (10 : Nat) ^ 9 = 1000000000 := by decide
   omega
 
-/-- for a leader the block phase can produce (`LeaderOk`), the `start` that `List.__init__` computes
-    agrees with it -/
-theorem leaderStartOk_mk (leader : Str) (h : Block.LeaderOk leader) :
+/-- for a list marker, the `start` that `List.__init__` computes agrees with it -/
+theorem leaderStartOk_mk (leader : Str) (h : isMarker leader = true) :
     leaderStartOk leader (if leader.length != 1 then some (parseNat leader.dropLast) else none) = true := by
   unfold leaderStartOk
+  rw [h]
   by_cases h1 : leader.length = 1
   · simp [h1]
-  · rcases h with h | ⟨hne, hall, hlen⟩
-    · exact absurd h h1
-    · have hlt := parseNat_lt_of_len _ hlen
-      have hne' : leader.dropLast.isEmpty = false := by
-        cases hd : leader.dropLast with
-        | nil => exact absurd hd hne
-        | cons _ _ => rfl
-      have hlen' : leader.length ≤ 10 := by
-        rw [List.length_dropLast] at hlen; omega
-      simp [h1, hne', hall, hlen', hlt]
+  · have hlen : leader.dropLast.length ≤ 9 := by
+      unfold isMarker at h
+      simp only [beq_iff_eq, h1, if_false, Bool.and_eq_true, decide_eq_true_eq] at h
+      exact h.1.2
+    have hlt := parseNat_lt_of_len _ hlen
+    simp [h1, hlt]
 
 end Mistletoe
+
+namespace Mistletoe.Block
+open Mistletoe Mistletoe.Py Mistletoe.Scan
+
+/-! ## Every leader in a parse buffer is a list marker
+
+  `EntryWF` (DocTotal) records what the constructors need of a leader (`LeaderOk`); the kind discipline wants
+  the marker itself.  The same simultaneous induction over `gas`, for any property `P` of the markers
+  `listMarker` returns (no hypothesis on the lines is needed). -/
+
+theorem listMarker_isMarker (r m r1 : Str) (h : listMarker r = some (m, r1)) : isMarker m = true := by
+  unfold listMarker at h
+  split at h
+  · cases h
+  · rename_i c rst
+    split at h
+    · rename_i hc
+      cases h
+      simp only [Bool.or_eq_true, beq_iff_eq] at hc
+      rcases hc with (rfl | rfl) | rfl <;> rfl
+    · simp only at h
+      split at h
+      · cases h
+      · rename_i hlen
+        simp only [Bool.or_eq_true, decide_eq_true_eq, not_or, Nat.not_lt] at hlen
+        split at h
+        · split at h
+          · rename_i he
+            cases h
+            have hall : ((span isDigit (c :: rst)).1).all isDigit = true := by
+              rw [List.all_eq_true]; exact span_all isDigit (c :: rst)
+            have hne : ((span isDigit (c :: rst)).1).isEmpty = false := by
+              cases hd : (span isDigit (c :: rst)).1 with
+              | nil => rw [hd] at hlen; simp at hlen
+              | cons _ _ => rfl
+            have hl1 : ((span isDigit (c :: rst)).1).length ≠ 0 := by omega
+            simp only [Bool.or_eq_true, beq_iff_eq] at he
+            unfold isMarker
+            simp only [List.length_append, List.length_cons, List.length_nil, List.dropLast_concat, hall, hne,
+              List.getLast?_concat, beq_iff_eq]
+            simp [hl1, hlen.2, he]
+          · cases h
+        · cases h
+
+section Leaders
+variable (P : Str → Prop)
+
+mutual
+/-- every item at any depth has a leader satisfying `P` -/
+def LdEntry : Entry → Prop
+  | .blockCode _ _ _ => True
+  | .heading _ _ _ _ _ => True
+  | .quote inner _ _ _ => LdEntries inner
+  | .codeFence _ _ _ _ _ _ _ => True
+  | .thematicBreak _ _ _ => True
+  | .list items _ _ => LdItems items
+  | .table _ _ _ _ => True
+  | .footnote _ _ _ => True
+  | .linkRefDefs _ _ _ => True
+  | .paragraph _ _ _ => True
+  | .setext _ _ _ => True
+  | .htmlBlock _ _ _ => True
+  | .blankLine _ _ => True
+def LdEntries : List Entry → Prop
+  | [] => True
+  | e :: es => LdEntry e ∧ LdEntries es
+def LdItem : Item → Prop
+  | .mk inner _ _ _ leader _ _ => P leader ∧ LdEntries inner
+def LdItems : List Item → Prop
+  | [] => True
+  | i :: is => LdItem i ∧ LdItems is
+end
+
+theorem ldEntries_append : ∀ (a b : List Entry), LdEntries P a → LdEntries P b → LdEntries P (a ++ b)
+  | [], _, _, hb => by simpa using hb
+  | x :: xs, b, ha, hb => by
+    simp only [List.cons_append, LdEntries] at ha ⊢
+    exact ⟨ha.1, ldEntries_append xs b ha.2 hb⟩
+
+theorem ldEntries_reverse : ∀ (a : List Entry), LdEntries P a → LdEntries P a.reverse
+  | [], _ => by simp [LdEntries]
+  | x :: xs, h => by
+    simp only [LdEntries] at h
+    rw [List.reverse_cons]
+    exact ldEntries_append P _ _ (ldEntries_reverse xs h.2) (by simp [LdEntries, h.1])
+
+theorem ldItems_append : ∀ (a b : List Item), LdItems P a → LdItems P b → LdItems P (a ++ b)
+  | [], _, _, hb => by simpa using hb
+  | x :: xs, b, ha, hb => by
+    simp only [List.cons_append, LdItems] at ha ⊢
+    exact ⟨ha.1, ldItems_append xs b ha.2 hb⟩
+
+theorem ldItems_reverse : ∀ (a : List Item), LdItems P a → LdItems P a.reverse
+  | [], _ => by simp [LdItems]
+  | x :: xs, h => by
+    simp only [LdItems] at h
+    rw [List.reverse_cons]
+    exact ldItems_append P _ _ (ldItems_reverse xs h.2) (by simp [LdItems, h.1])
+
+variable (hP : ∀ r m r1, listMarker r = some (m, r1) → P m)
+include hP
+
+theorem listItem_P (line : Str) (im : ItemMatch) (h : Scan.listItem line = some im) : P im.g2 := by
+  unfold Scan.listItem at h
+  split at h
+  · cases h
+  · split at h
+    · cases h
+    · rename_i mk r1 hm
+      have := hP _ mk r1 hm
+      split at h
+      · cases h; exact this
+      · simp only at h
+        split at h
+        · cases h
+        · cases h; exact this
+
+theorem parseMarker_P (line : Str) (m) (h : parseMarker line = some m) : P m.2.2.1 := by
+  unfold parseMarker at h
+  split at h
+  · cases h
+  · rename_i im hi
+    have := listItem_P P hP line im hi
+    simp only at h
+    split at h <;> (cases h; exact this)
+
+theorem itemLines_P (cfg : Cfg) (fw : FW) (prev) (il : ItemLines) (h : itemLines cfg fw prev = .ok il)
+    (hprev : ∀ m, prev = some m → P m.2.2.1) : P il.leader := by
+  unfold itemLines at h
+  split at h
+  · cases h
+  · rename_i l0 hp
+    simp only at h
+    split at h
+    · cases h
+    · rename_i ind pre0 ld content hmk
+      have hld : P ld := by
+        cases prev with
+        | some m => simp only [Option.some.injEq] at hmk; subst hmk; exact hprev _ rfl
+        | none => exact parseMarker_P P hP l0.s _ hmk
+      split at h
+      · split at h
+        · cases h; exact hld
+        · split at h
+          · cases h
+          · cases h; exact hld
+      · split at h
+        · cases h
+        · cases h; exact hld
+
+def TokLd (cfg : Cfg) (gas : Nat) : Prop :=
+  ∀ (lines : List Line) (start : Nat) (st : St) (b : Buf) (st' : St),
+    tokenizeBlock cfg gas lines start st = .ok (b, st') → LdEntries P b.entries
+
+def LoopLd (cfg : Cfg) (gas : Nat) : Prop :=
+  ∀ (fw : FW) (st : St) (acc : List Entry) (loose : Bool) (b) (st'),
+    tokLoop cfg gas fw st acc loose = .ok (b, st') → LdEntries P acc → LdEntries P b.entries
+
+def TryLd (cfg : Cfg) (gas : Nat) : Prop :=
+  ∀ (fw : FW) (st : St) (l : Line) (ts : List BTok) (e : Entry) (fw' : FW) (st' : St),
+    tryTypes cfg gas fw st l ts = .ok (some (e, fw', st')) → LdEntry P e
+
+def ListLd (cfg : Cfg) (gas : Nat) : Prop :=
+  ∀ (fw : FW) (st : St) (ld) (nm) (acc : List Item) (r),
+    readList cfg gas fw st ld nm acc = .ok r →
+    (∀ m, nm = some m → ∃ l, fw.peek = some l ∧ parseMarker l.s = some m) →
+    LdItems P acc → LdItems P r.1
+
+omit hP in
+theorem list_ld_stop (st' : St) (items : List Item) (fwEnd : FW) (rr : List Item × FW × St) (hi : LdItems P items)
+    (he : (Res.ok ((match items with
+            | .mk inner loose i p l n g :: rest => Item.mk inner (decide (inner.length > 1) && loose) i p l n g :: rest
+            | [] => []).reverse, fwEnd, st') : Res _) = .ok rr) : LdItems P rr.1 := by
+  cases he
+  cases items with
+  | nil => simp [LdItems]
+  | cons x xs =>
+    cases x
+    simp only [LdItems, LdItem] at hi
+    refine ldItems_reverse P _ ?_
+    simp only [LdItems, LdItem]
+    exact hi
+
+theorem list_ld (cfg : Cfg) (gas : Nat) (hT : TokLd P cfg gas) (hL : ListLd P cfg gas) : ListLd P cfg (gas + 1) := by
+  intro fw st ld nm acc r h hmk hacc
+  have hmkl : ∀ m, nm = some m → P m.2.2.1 := by
+    intro m hm
+    obtain ⟨l, _, hl2⟩ := hmk m hm
+    exact parseMarker_P P hP l.s m hl2
+  simp only [readList] at h
+  split at h
+  · cases h
+  · rename_i il hil
+    have hnp := itemLines_next_marker cfg fw nm il hil
+    have hlead := itemLines_P P hP cfg fw nm il hil hmkl
+    have key : ∀ (item : Item) (itemLeader : Str) (next : Option (Nat × Nat × Str × Str)) (fw' : FW) (st' : St),
+        (match il with
+          | .empty ind pre ldr ln og next fw' => (Res.ok (Item.mk [] true ind pre ldr ln og, ldr, next, fw', st) : Res _)
+          | .lines buf cstart ind pre ldr ln og next fw' =>
+            match tokenizeBlock cfg gas buf cstart st with
+            | .err e => .err e
+            | .ok (b, st') => .ok (Item.mk b.entries b.loose ind pre ldr ln og, ldr, next, fw', st'))
+          = .ok (item, itemLeader, next, fw', st') → fw' = il.fw ∧ next = il.next ∧ LdItem P item := by
+      intro item itemLeader next fw' st' he
+      cases il with
+      | empty ind pre ldr ln og nx fwx =>
+        simp only at he; cases he
+        exact ⟨rfl, rfl, hlead, trivial⟩
+      | lines buf cstart ind pre ldr ln og nx fwx =>
+        simp only at he
+        split at he
+        · cases he
+        · rename_i b stb hb
+          cases he
+          exact ⟨rfl, rfl, hlead, hT _ _ _ _ _ hb⟩
+    split at h
+    · cases h
+    · rename_i item itemLeader next fw' st' hres
+      obtain ⟨hk, hk2, hkw⟩ := key item itemLeader next fw' st' hres
+      subst hk; subst hk2
+      have hacc' : LdItems P (item :: acc) := ⟨hkw, hacc⟩
+      split at h
+      · split at h
+        · exact list_ld_stop P st' acc _ r hacc h
+        · split at h
+          · exact list_ld_stop P st' _ _ r hacc' h
+          · exact hL il.fw st' _ _ _ r h hnp hacc'
+      · split at h
+        · exact list_ld_stop P st' _ _ r hacc' h
+        · exact hL il.fw st' _ _ _ r h hnp hacc'
+
+omit hP in
+theorem try_ld (cfg : Cfg) (gas : Nat) (hT : TokLd P cfg gas) (hL : ListLd P cfg gas) (hY : TryLd P cfg gas) :
+    TryLd P cfg (gas + 1) := by
+  intro fw st l ts e fw' st' h
+  cases ts with
+  | nil => simp [tryTypes] at h
+  | cons t ts =>
+    have ih := fun fw2 st2 (h2 : tryTypes cfg gas fw2 st2 l ts = .ok (some (e, fw', st'))) =>
+      hY fw2 st2 l ts e fw' st' h2
+    unfold tryTypes at h
+    cases t <;> simp only at h
+    · -- htmlBlock
+      split at h
+      · cases h
+      · exact ih fw st h
+      · cases h; trivial
+    · -- blockCode
+      split at h
+      · cases h; trivial
+      · exact ih fw st h
+    · -- heading
+      split at h
+      · cases h; trivial
+      · exact ih fw st h
+    · -- quote
+      split at h
+      · split at h
+        · cases h
+        · split at h
+          · cases h
+          · rename_i b stb hb
+            cases h
+            exact hT _ _ _ _ _ hb
+      · exact ih fw st h
+    · -- codeFence
+      split at h
+      · cases h; trivial
+      · exact ih fw st h
+    · -- thematicBreak
+      split at h
+      · cases h; trivial
+      · exact ih fw st h
+    · -- list
+      split at h
+      · split at h
+        · cases h
+        · rename_i items fwl stl hrl
+          cases h
+          exact hL fw st none none [] _ hrl (fun m hm => by cases hm) trivial
+      · exact ih fw st h
+    · -- table
+      split at h
+      · split at h
+        · cases h; trivial
+        · exact ih fw st h
+      · exact ih fw st h
+    · -- footnote
+      split at h
+      · split at h
+        · cases h
+        · split at h
+          · exact ih _ _ h
+          · cases h; trivial
+      · exact ih fw st h
+    · -- paragraph
+      split at h
+      · split at h
+        · cases h
+        · cases h; trivial
+        · cases h; trivial
+      · exact ih fw st h
+    · -- blankLine
+      split at h
+      · cases h; trivial
+      · exact ih fw st h
+    · -- linkRefDefBlock
+      split at h
+      · split at h
+        · cases h
+        · split at h
+          · exact ih _ _ h
+          · cases h; trivial
+      · exact ih fw st h
+
+omit hP in
+theorem loop_ld (cfg : Cfg) (gas : Nat) (hY : TryLd P cfg gas) (hPl : LoopLd P cfg gas) : LoopLd P cfg (gas + 1) := by
+  intro fw st acc loose b st' h hacc
+  simp only [tokLoop] at h
+  split at h
+  · cases h; exact ldEntries_reverse P acc hacc
+  · rename_i l hp
+    split at h
+    · cases h
+    · rename_i e fw2 st2 ht
+      exact hPl fw2 st2 _ loose b st' h ⟨hY fw st l cfg.types e fw2 st2 ht, hacc⟩
+    · exact hPl fw.next st acc true b st' h hacc
+
+omit hP in
+theorem tok_ld (cfg : Cfg) (gas : Nat) (hPl : LoopLd P cfg gas) : TokLd P cfg (gas + 1) := by
+  intro lines start st b st' h
+  simp only [tokenizeBlock] at h
+  exact hPl _ _ _ _ _ _ h trivial
+
+theorem all_ld (cfg : Cfg) : ∀ (gas : Nat), TokLd P cfg gas ∧ LoopLd P cfg gas ∧ TryLd P cfg gas ∧ ListLd P cfg gas
+  | 0 => by
+    refine ⟨?_, ?_, ?_, ?_⟩
+    · intro lines start st b st' h; simp [tokenizeBlock] at h
+    · intro fw st acc loose b st' h; simp [tokLoop] at h
+    · intro fw st l ts e fw' st' h; simp [tryTypes] at h
+    · intro fw st ld nm acc r h; simp [readList] at h
+  | gas + 1 => by
+    obtain ⟨hT, hPl, hY, hL⟩ := all_ld cfg gas
+    exact ⟨tok_ld P cfg gas hPl, loop_ld P cfg gas hY hPl, try_ld P cfg gas hT hL hY, list_ld P hP cfg gas hT hL⟩
+
+end Leaders
+
+/-- "is a list marker" as a property of leaders -/
+def MarkerP (ld : Str) : Prop := isMarker ld = true
+
+/-- **every leader in the buffer of the block phase, at every depth, is a list marker** (for every list of
+    lines, complete or not) -/
+theorem blockPhase_markers (cfg : Cfg) (gas : Nat) (lines : List Str) (b : Buf) (st : St)
+    (h : blockPhase cfg gas lines = .ok (b, st)) : LdEntries MarkerP b.entries :=
+  (all_ld MarkerP listMarker_isMarker cfg gas).1 _ 1 {} b st h
+
+end Mistletoe.Block
 
 namespace Mistletoe.Document
 open Mistletoe Mistletoe.Py Mistletoe.Scan Mistletoe.Block Mistletoe.Inline
@@ -211,18 +570,18 @@ theorem linkRefDefs_shape (ms : List FnMatch) : (ms.map linkRefDef).all Inline.i
 mutual
 /-- `token_type(result)` on a well-formed entry: a well-shaped flow block -/
 theorem mkBlock_shape (cfg : Cfg) (fn : Footnotes.Table) :
-    ∀ (e : Entry), EntryWF e → ∀ (b : Mistletoe.Block), mkBlock cfg fn e = .ok (some b) →
+    ∀ (e : Entry), EntryWF e → LdEntry MarkerP e → ∀ (b : Mistletoe.Block), mkBlock cfg fn e = .ok (some b) →
       b.shapeOk = true ∧ b.isFlow = true
-  | .blockCode ls ln og, _, b, h => by
+  | .blockCode ls ln og, _, _, b, h => by
     simp only [mkBlock] at h; cases h; exact ⟨rfl, rfl⟩
-  | .heading lvl content closing ln og, hw, b, h => by
+  | .heading lvl content closing ln og, hw, hm, b, h => by
     simp only [mkBlock] at h
     simp only [EntryWF] at hw
     split at h
     · cases h
     · cases h
       exact ⟨by simp [Block.shapeOk, hw.1, hw.2], rfl⟩
-  | .quote inner lo ln og, hw, b, h => by
+  | .quote inner lo ln og, hw, hm, b, h => by
     simp only [mkBlock] at h
     simp only [EntryWF] at hw
     cases hk : mkBlocks cfg fn inner with
@@ -230,20 +589,20 @@ theorem mkBlock_shape (cfg : Cfg) (fn : Footnotes.Table) :
     | ok kids =>
       rw [hk] at h
       cases h
-      obtain ⟨h1, h2⟩ := mkBlocks_shape cfg fn inner hw kids hk
+      obtain ⟨h1, h2⟩ := mkBlocks_shape cfg fn inner hw (by simpa only [LdEntry] using hm) kids hk
       exact ⟨by simp [Block.shapeOk, h1, h2], rfl⟩
-  | .codeFence ls p ld info lang ln og, _, b, h => by
+  | .codeFence ls p ld info lang ln og, _, _, b, h => by
     simp only [mkBlock] at h; cases h; exact ⟨rfl, rfl⟩
-  | .thematicBreak line ln og, _, b, h => by
+  | .thematicBreak line ln og, _, _, b, h => by
     simp only [mkBlock] at h; cases h; exact ⟨rfl, rfl⟩
-  | .list items ln og, hw, b, h => by
+  | .list items ln og, hw, hm, b, h => by
     simp only [mkBlock] at h
     simp only [EntryWF] at hw
     cases hk : mkItems cfg fn items with
     | err e => rw [hk] at h; cases h
     | ok its =>
       rw [hk] at h
-      obtain ⟨h1, h2, h3⟩ := mkItems_shape cfg fn items hw.2 its hk
+      obtain ⟨h1, h2, h3⟩ := mkItems_shape cfg fn items hw.2 (by simpa only [LdEntry] using hm) its hk
       cases items with
       | nil => exact absurd rfl hw.1
       | cons x xs =>
@@ -259,15 +618,14 @@ theorem mkBlock_shape (cfg : Cfg) (fn : Footnotes.Table) :
               · cases hk
               · cases hk; exact ⟨_, _, rfl⟩
           obtain ⟨kids, more, rfl⟩ := hits
-          have hld : LeaderOk leader := by
-            have := hw.2
-            simp only [ItemsWF, ItemWF] at this
-            exact this.1.1
+          have hld : isMarker leader = true := by
+            simp only [LdEntry, LdItems, LdItem] at hm
+            exact hm.1.1
           have hs := leaderStartOk_mk leader hld
           refine ⟨?_, rfl⟩
           simp only [bne_iff_ne, ne_eq, ite_not] at hs
           simp [Block.shapeOk, listStartOk, hs, h2, h3]
-  | .table lines sl ln og, hw, b, h => by
+  | .table lines sl ln og, hw, hm, b, h => by
     simp only [EntryWF] at hw
     obtain ⟨l0, l1, rest, rfl, _, hdash⟩ := hw
     simp only [mkBlock, hdash, if_true] at h
@@ -289,17 +647,17 @@ theorem mkBlock_shape (cfg : Cfg) (fn : Footnotes.Table) :
           obtain ⟨h1, h2⟩ := tableRow_shape cfg fn l0 align sl header hh
           obtain ⟨h3, h4⟩ := tableRows_shape cfg fn rest align (sl + 2) rows hr
           exact ⟨by simp [Block.shapeOk, shapeOkL, h1, h2, h3, h4], rfl⟩
-  | .footnote ms ln og, _, b, h => by
+  | .footnote ms ln og, _, _, b, h => by
     simp only [mkBlock] at h; cases h
-  | .linkRefDefs ms ln og, _, b, h => by
+  | .linkRefDefs ms ln og, _, _, b, h => by
     simp only [mkBlock] at h; cases h
     exact ⟨by simp only [Block.shapeOk]; exact linkRefDefs_shape ms, rfl⟩
-  | .paragraph lines ln og, _, b, h => by
+  | .paragraph lines ln og, _, _, b, h => by
     simp only [mkBlock] at h
     split at h
     · cases h
     · cases h; exact ⟨rfl, rfl⟩
-  | .setext lines ln og, _, b, h => by
+  | .setext lines ln og, _, _, b, h => by
     simp only [mkBlock] at h
     split at h
     · cases h
@@ -309,17 +667,18 @@ theorem mkBlock_shape (cfg : Cfg) (fn : Footnotes.Table) :
         refine ⟨?_, rfl⟩
         simp only [Block.shapeOk]
         split <;> rfl
-  | .htmlBlock lines ln og, _, b, h => by
+  | .htmlBlock lines ln og, _, _, b, h => by
     simp only [mkBlock] at h; cases h; exact ⟨rfl, rfl⟩
-  | .blankLine ln og, _, b, h => by
+  | .blankLine ln og, _, _, b, h => by
     simp only [mkBlock] at h; cases h; exact ⟨rfl, rfl⟩
 /-- `make_tokens(parse_buffer)` on a well-formed buffer: well-shaped flow blocks only -/
 theorem mkBlocks_shape (cfg : Cfg) (fn : Footnotes.Table) :
-    ∀ (es : List Entry), EntriesWF es → ∀ (bs : List Mistletoe.Block), mkBlocks cfg fn es = .ok bs →
+    ∀ (es : List Entry), EntriesWF es → LdEntries MarkerP es → ∀ (bs : List Mistletoe.Block), mkBlocks cfg fn es = .ok bs →
       bs.all Block.isFlow = true ∧ shapeOkL bs = true
-  | [], _, bs, h => by
+  | [], _, _, bs, h => by
     simp only [mkBlocks] at h; cases h; exact ⟨rfl, rfl⟩
-  | e :: es, hw, bs, h => by
+  | e :: es, hw, hm, bs, h => by
+    simp only [LdEntries] at hm
     simp only [EntriesWF] at hw
     simp only [mkBlocks] at h
     cases hb : mkBlock cfg fn e with
@@ -327,24 +686,25 @@ theorem mkBlocks_shape (cfg : Cfg) (fn : Footnotes.Table) :
     | ok b =>
       rw [hb] at h
       simp only at h
-      cases hm : mkBlocks cfg fn es with
-      | err er => rw [hm] at h; cases h
+      cases hmo : mkBlocks cfg fn es with
+      | err er => rw [hmo] at h; cases h
       | ok more =>
-        rw [hm] at h
-        obtain ⟨h3, h4⟩ := mkBlocks_shape cfg fn es hw.2 more hm
+        rw [hmo] at h
+        obtain ⟨h3, h4⟩ := mkBlocks_shape cfg fn es hw.2 hm.2 more hmo
         cases b with
         | none => cases h; exact ⟨h3, h4⟩
         | some x =>
           cases h
-          obtain ⟨h1, h2⟩ := mkBlock_shape cfg fn e hw.1 x hb
+          obtain ⟨h1, h2⟩ := mkBlock_shape cfg fn e hw.1 hm.1 x hb
           simp [shapeOkL, h1, h2, h3, h4]
 /-- the `ListItem` constructors: `.listItem`s only, each well-shaped -/
 theorem mkItems_shape (cfg : Cfg) (fn : Footnotes.Table) :
-    ∀ (is : List Item), ItemsWF is → ∀ (bs : List Mistletoe.Block), mkItems cfg fn is = .ok bs →
+    ∀ (is : List Item), ItemsWF is → LdItems MarkerP is → ∀ (bs : List Mistletoe.Block), mkItems cfg fn is = .ok bs →
       bs.isEmpty = is.isEmpty ∧ bs.all Block.isListItem = true ∧ shapeOkL bs = true
-  | [], _, bs, h => by
+  | [], _, _, bs, h => by
     simp only [mkItems] at h; cases h; exact ⟨rfl, rfl, rfl⟩
-  | .mk inner lo ind pre ld ln og :: rest, hw, bs, h => by
+  | .mk inner lo ind pre ld ln og :: rest, hw, hm, bs, h => by
+    simp only [LdItems, LdItem] at hm
     simp only [ItemsWF, ItemWF] at hw
     simp only [mkItems] at h
     cases hk : mkBlocks cfg fn inner with
@@ -352,13 +712,13 @@ theorem mkItems_shape (cfg : Cfg) (fn : Footnotes.Table) :
     | ok kids =>
       rw [hk] at h
       simp only at h
-      cases hm : mkItems cfg fn rest with
-      | err e => rw [hm] at h; cases h
+      cases hmo : mkItems cfg fn rest with
+      | err e => rw [hmo] at h; cases h
       | ok more =>
-        rw [hm] at h
+        rw [hmo] at h
         cases h
-        obtain ⟨h1, h2⟩ := mkBlocks_shape cfg fn inner hw.1.2 kids hk
-        obtain ⟨_, h3, h4⟩ := mkItems_shape cfg fn rest hw.2 more hm
+        obtain ⟨h1, h2⟩ := mkBlocks_shape cfg fn inner hw.1.2 hm.1.2 kids hk
+        obtain ⟨_, h3, h4⟩ := mkItems_shape cfg fn rest hw.2 hm.2 more hmo
         simp [shapeOkL, Block.shapeOk, Block.isListItem, h1, h2, h3, h4]
 end
 
@@ -375,7 +735,8 @@ theorem parse_shapeOk (cfg : Cfg) (gas : Nat) (lines : List Str) (d : Doc)
     | ok kids =>
       rw [hk] at h
       cases h
-      obtain ⟨h1, h2⟩ := mkBlocks_shape cfg _ buf.entries (blockPhase_wf cfg.block gas lines buf st hl hb) kids hk
+      obtain ⟨h1, h2⟩ := mkBlocks_shape cfg _ buf.entries (blockPhase_wf cfg.block gas lines buf st hl hb)
+        (blockPhase_markers cfg.block gas lines buf st hb) kids hk
       simp [Doc.shapeOk, h1, h2]
 
 theorem parse_shapeOk_str (cfg : Cfg) (gas : Nat) (t : Str) (d : Doc)
@@ -405,34 +766,66 @@ def cfgD : Document.Cfg :=
   { block := { types := [.blockCode, .heading, .quote, .codeFence, .thematicBreak, .list, .table, .footnote, .paragraph] },
     span := [.escapeSequence, .strikethrough, .autoLink, .coreTokens, .inlineCode, .lineBreak] }
 
-example : Config.default = some cfgD := by decide +kernel
+/-- it is the configuration regenerated from /repo (`Config.default`) -/
+example : (match Config.default with
+    | some c => c.block.types == cfgD.block.types && c.block.tableInterrupt == cfgD.block.tableInterrupt && c.span == cfgD.span
+    | none => false) = true := by decide +kernel
 
+/-- `Doc.shapeOk` of a parse result (`none`: the parse did not return) -/
+def shapeOfParse : Res Doc → Option Bool
+  | .ok d => some d.shapeOk
+  | .err _ => none
+
+/-- an ordered list starting at 3 whose first item holds a nested bullet list, a table with one body row, a
+    quote holding a heading and a paragraph, a fenced code block, a setext heading -/
 def sampleText : Str :=
   "3. a\n   - b\n   - c\n4. d\n\n| h | k |\n|---|:-:|\n| 1 | *2* |\n\n> # Q\n> r\n\n```py\ncode\n```\nT\n=\n".toList
 
-/-- an ordered list starting at 3 with a nested bullet list, a table, a quote with a heading, a fenced code block,
-    a setext heading: the parse returns and the document is well-shaped -/
-example : (Document.parse cfgD 60 sampleText).map Doc.shapeOk = .ok true := by decide +kernel
+/-- the parse returns and the document is well-shaped (evaluated by the kernel) -/
+example : shapeOfParse (Document.parse cfgD 60 sampleText) = some true := by decide +kernel
 
-/-- what was parsed -/
-def sampleSkeleton : Res Doc → Bool
-  | .ok ⟨[.list _ (some 3) [.listItem ['3', '.'] _ _ _ [.paragraph _ _, .list _ none [.listItem ['-'] _ _ _ _ _, .listItem ['-'] _ _ _ _ _] _] _,
-                           .listItem ['4', '.'] _ _ _ _ _] _,
-          .table _ [.tableRow _ [.tableCell _ _ _, .tableCell _ _ _] _] [.tableRow _ [.tableCell _ _ _, .tableCell _ [.rawText _] _] _] _,
-          .quote [.heading 1 _ _ _, .paragraph _ _] _,
-          .codeFence _ _ _ _ _ _,
-          .setextHeading 1 _ _ _], _⟩ => true
-  | _ => false
+mutual
+/-- the kinds of a tree in pre-order: one letter per token, child lists in parentheses; a list shows its
+    `start` as `#` and that many `+`, an item its leader in brackets, a heading its level as that many `+` -/
+def skel : Mistletoe.Block → Str
+  | .paragraph _ _ => ['p']
+  | .heading n _ _ _ => 'h' :: List.replicate n '+'
+  | .setextHeading n _ _ _ => 's' :: List.replicate n '+'
+  | .quote ks _ => 'q' :: '(' :: skelL ks ++ [')']
+  | .blockCode _ _ => ['c']
+  | .codeFence _ _ _ _ _ _ => ['f']
+  | .list _ s ks _ =>
+    'l' :: (match s with | some n => '#' :: List.replicate n '+' | none => []) ++ '(' :: skelL ks ++ [')']
+  | .listItem ld _ _ _ ks _ => 'i' :: '[' :: ld ++ ']' :: '(' :: skelL ks ++ [')']
+  | .table _ hd rs _ => 't' :: '(' :: skelL hd ++ [')', '('] ++ skelL rs ++ [')']
+  | .tableRow _ cs _ => 'r' :: '(' :: skelL cs ++ [')']
+  | .tableCell _ _ _ => ['d']
+  | .thematicBreak _ _ => ['-']
+  | .htmlBlock _ _ => ['x']
+  | .blankLine _ => ['_']
+  | .linkRefDefBlock _ _ => ['=']
+def skelL : List Mistletoe.Block → Str
+  | [] => []
+  | b :: bs => skel b ++ skelL bs
+end
+def skelOfParse : Res Doc → Str
+  | .ok d => skelL d.kids
+  | .err _ => []
 
-example : sampleSkeleton (Document.parse cfgD 60 sampleText) = true := by decide +kernel
+/-- what was parsed: list(start 3)[item "3."[paragraph, list(no start)[item "-"[p], item "-"[p]]], item "4."[p]],
+    table[header row[2 cells]][row[2 cells]], quote[heading 1, paragraph], code fence, setext heading 1 -/
+example : skelOfParse (Document.parse cfgD 60 sampleText) =
+    "l#+++(i[3.](pl(i[-](p)i[-](p)))i[4.](p))t(r(dd))(r(dd))q(h+p)fs+".toList := by decide +kernel
 
 /-- the predicate is not trivially true: a list holding a paragraph, a quote holding a list item, a table row
-    outside a table, a heading of level 7, a start that disagrees with the first marker -/
+    outside a table, a heading of level 7, a start that disagrees with the first marker, an empty list -/
 example : (Block.list false none [.paragraph [] 1] 1).shapeOk = false := by decide
 example : (Block.quote [.listItem ['-'] 0 2 false [] 1] 1).shapeOk = false := by decide
 example : Doc.shapeOk ⟨[.tableRow [none] [] 1], []⟩ = false := by decide
 example : (Block.heading 7 [] [] 1).shapeOk = false := by decide
 example : (Block.list false (some 4) [.listItem ['3', '.'] 0 3 false [] 1] 1).shapeOk = false := by decide +kernel
+example : (Block.list false none [.listItem ['3', '.'] 0 3 false [] 1] 1).shapeOk = false := by decide +kernel
+example : (Block.list false (some 3) [.listItem ['-'] 0 2 false [] 1] 1).shapeOk = false := by decide +kernel
 example : (Block.list false (some 3) [.listItem ['3', '.'] 0 3 false [] 1] 1).shapeOk = true := by decide +kernel
 example : (Block.list false none [] 1).shapeOk = false := by decide
 
